@@ -312,6 +312,10 @@ class SchemaValidator:
         for arg in args:
             try:
                 param = sig.parameters[arg.python_name]
+                if param.kind in VAR_PARAM_KINDS:
+                    # ``*args`` / ``**kwargs`` are not the parameter of an
+                    # argument which happens to be called "args" / "kwargs".
+                    raise KeyError(arg.python_name)
             except KeyError:
                 if not accepts_arbitrary_kw_params:
                     self.add_error(
